@@ -272,7 +272,14 @@ func c17Snapshot(root string, timed map[string]bool) string {
 			inodes[ino] = append(inodes[ino], rel)
 		}
 		if timed[rel] {
-			l += fmt.Sprintf(" mtime=%d", fi.ModTime().Unix())
+			// an mtime set explicitly (the alphabet uses values far in the past) is compared
+			// exactly; one that an operation has moved to the time of day since then only as
+			// "now": the two trees are changed a moment apart
+			if mt := fi.ModTime().Unix(); mt < 1500000000 {
+				l += fmt.Sprintf(" mtime=%d", mt)
+			} else {
+				l += " mtime=now"
+			}
 		}
 		lines = append(lines, l)
 		return nil
@@ -305,8 +312,8 @@ func (o mop) run9p(cl *Cli, dotu bool, tag *uint16) (reply *wire.Msg, follow str
 			return r, ""
 		}
 		if len(r.Wqid) != len(split(o.Dir)) {
-			// the directory does not resolve (a partial walk binds nothing): the same failure as ENOENT on the host
-			return &wire.Msg{Type: wire.Rerror, Ename: "file not found", Errno: uint32(syscall.ENOENT)}, ""
+			// the directory does not resolve (a partial walk binds nothing and carries no error number)
+			return &wire.Msg{Type: wire.Rerror, Ename: "walk failed"}, ""
 		}
 		ext := o.Ext
 		if o.Kind == "link" {
